@@ -78,6 +78,7 @@ fn c09_kernel(age: Age, level: u8) {
 // Age::Day: real kernel == (local day index of created_at != local day index of now), clock stubbed.
 #[kani::proof]
 #[kani::stub(verif_support::reexp::catch_unwind, verif_support::stub_cu)]
+#[kani::stub(crate::parameters::file_spec::TimestampCfg::get_timestamp, crate::parameters::file_spec::verif_harness::cut_get_timestamp)]
 #[kani::stub(chrono::Local::now, stub_now)]
 fn c09_kernel_day() {
     c09_kernel(Age::Day, 0);
@@ -86,6 +87,7 @@ fn c09_kernel_day() {
 // Age::Hour: real kernel == (local hour index differs).
 #[kani::proof]
 #[kani::stub(verif_support::reexp::catch_unwind, verif_support::stub_cu)]
+#[kani::stub(crate::parameters::file_spec::TimestampCfg::get_timestamp, crate::parameters::file_spec::verif_harness::cut_get_timestamp)]
 #[kani::stub(chrono::Local::now, stub_now)]
 fn c09_kernel_hour() {
     c09_kernel(Age::Hour, 1);
@@ -94,6 +96,7 @@ fn c09_kernel_hour() {
 // Age::Minute: real kernel == (local minute index differs).
 #[kani::proof]
 #[kani::stub(verif_support::reexp::catch_unwind, verif_support::stub_cu)]
+#[kani::stub(crate::parameters::file_spec::TimestampCfg::get_timestamp, crate::parameters::file_spec::verif_harness::cut_get_timestamp)]
 #[kani::stub(chrono::Local::now, stub_now)]
 fn c09_kernel_minute() {
     c09_kernel(Age::Minute, 2);
@@ -102,6 +105,7 @@ fn c09_kernel_minute() {
 // Age::Second: real kernel == (local second differs).
 #[kani::proof]
 #[kani::stub(verif_support::reexp::catch_unwind, verif_support::stub_cu)]
+#[kani::stub(crate::parameters::file_spec::TimestampCfg::get_timestamp, crate::parameters::file_spec::verif_harness::cut_get_timestamp)]
 #[kani::stub(chrono::Local::now, stub_now)]
 fn c09_kernel_second() {
     c09_kernel(Age::Second, 3);
@@ -112,6 +116,7 @@ fn c09_kernel_second() {
 // For all u64 max/cur: rotation_necessary() of a Size roll state == (cur > max); AgeOrSize with the age part inactive (same period) decides identically.
 #[kani::proof]
 #[kani::stub(verif_support::reexp::catch_unwind, verif_support::stub_cu)]
+#[kani::stub(crate::parameters::file_spec::TimestampCfg::get_timestamp, crate::parameters::file_spec::verif_harness::cut_get_timestamp)]
 #[kani::stub(chrono::Local::now, stub_now)]
 fn c08_size_kernel() {
     vs::cell_set(0, 0);
@@ -134,6 +139,7 @@ fn c08_size_kernel() {
 // increase_size adds exactly `add` for Size and AgeOrSize (nothing for Age); reset_size_and_date sets 0. No overflow panic for sums within u64.
 #[kani::proof]
 #[kani::stub(verif_support::reexp::catch_unwind, verif_support::stub_cu)]
+#[kani::stub(crate::parameters::file_spec::TimestampCfg::get_timestamp, crate::parameters::file_spec::verif_harness::cut_get_timestamp)]
 #[kani::stub(chrono::Local::now, stub_now)]
 #[kani::stub(get_creation_timestamp, stub_creation_ts)]
 fn c08_size_accounting() {
@@ -216,6 +222,7 @@ fn any_age() -> Age {
 #[kani::proof]
 #[kani::unwind(6)]
 #[kani::stub(verif_support::reexp::catch_unwind, verif_support::stub_cu)]
+#[kani::stub(crate::parameters::file_spec::TimestampCfg::get_timestamp, crate::parameters::file_spec::verif_harness::cut_get_timestamp)]
 #[kani::stub(chrono::Local::now, stub_now)]
 #[kani::stub(get_creation_timestamp, stub_creation_ts)]
 #[kani::stub(std::fs::metadata, stub_metadata)]
@@ -466,7 +473,7 @@ fn c19_rotate_open_fails() {
     rotate_numbers_size_case(2);
 }
 }
-// @verif prop=C19,C07 tier=quick timeout=900 bounds=same,cleanup-fails(EIO)
+// @verif prop=C19,C07 tier=probe timeout=900 bounds=same,cleanup-fails(EIO)
 // (A) with a failing cleanup: the rotation itself is complete (new writer mounted, size count reset), the failure is returned to the caller for reporting.
 step_harness! { 8,
 fn c19_rotate_cleanup_fails() {
@@ -559,6 +566,95 @@ step_integrated_instance!(c01_step_write_rotate_flush, 0);
 // ... and so does shutdown().
 step_integrated_instance!(c04_step_write_rotate_shutdown, 1);
 
+// Integrated step with a fault (C19): the rotation inside write_buffer fails at a concrete point
+// (1 rename step, 2 open, 3 cleanup) or the write itself fails (4). The log call must not lose the
+// record because the *rotation* failed: the failure is reported exactly once on the error channel
+// and the record is written to the writer that is mounted at that moment; only a failing write
+// loses (exactly) its own record and returns the error to the caller, who reports it.
+fn step_fault_case(fault: u64) {
+    vs::link_all();
+    vs::cell_set(0, fault);
+    vs::cell_set(1, 0);
+    let idx: u32 = kani::any();
+    kani::assume(idx < 1000);
+    let max_size: u64 = kani::any();
+    let current_size: u64 = kani::any();
+    kani::assume(current_size < (1u64 << 63));
+    let mut state = numbers_state(idx, max_size, current_size);
+    let len: usize = kani::any();
+    kani::assume(len >= 1 && len <= 8);
+    let buf = [b'x'; 8];
+    let r = state.write_buffer(&buf[..len]);
+    let ok = r.is_ok();
+    std::mem::forget(r);
+    let rotate = current_size > max_size;
+    let mut n = 0usize;
+    // which writer is mounted when the record is written, and what the bookkeeping must say
+    let (w, idx2, base): (u32, u32, u64) = if !rotate {
+        (0, idx, current_size)
+    } else if fault == 1 {
+        assert!(vs::ev_len() >= 2 && vs::ev_get(0) == 1 && vs::ev_get(1) == 5);
+        n = 2;
+        (0, idx, current_size)
+    } else if fault == 2 {
+        assert!(vs::ev_len() >= 3 && vs::ev_get(0) == 1 && vs::ev_get(1) == 2 && vs::ev_get(2) == 5);
+        n = 3;
+        (0, idx + 1, current_size)
+    } else if fault == 3 {
+        assert!(vs::ev_len() >= 5 && vs::ev_get(0) == 1 && vs::ev_get(1) == 2 && vs::ev_get(2) == 0x300 && vs::ev_get(3) == 3 && vs::ev_get(4) == 5);
+        n = 5;
+        (1, idx + 1, 0)
+    } else {
+        assert!(vs::ev_len() >= 4 && vs::ev_get(0) == 1 && vs::ev_get(1) == 2 && vs::ev_get(2) == 0x300 && vs::ev_get(3) == 3);
+        n = 4;
+        (1, idx + 1, 0)
+    };
+    if fault == 4 {
+        // the write failed: Err to the caller, nothing recorded as written, size count unchanged
+        assert!(!ok && vs::ev_len() == n);
+    } else {
+        // a failed rotation does not cost the record: written once, to the mounted writer
+        assert!(ok);
+        assert!(vs::ev_len() == n + 1 && vs::ev_get(n) == (0x100 | w << 4 | len as u32));
+    }
+    if let Inner::Active(Some(rs), _, _) = &state.inner {
+        match (&rs.naming_state, &rs.roll_state) {
+            (NamingState::NumbersRCurrent(i2), RollState::Size { max_size: m2, current_size: c2 }) => {
+                assert!(*m2 == max_size && *i2 == idx2);
+                assert!(*c2 == if fault == 4 { base } else { base + len as u64 });
+            }
+            _ => unreachable!(),
+        }
+    } else {
+        unreachable!();
+    }
+    kani::cover!(rotate, "the write tried to rotate");
+    kani::cover!(!rotate, "no rotation due");
+    std::mem::forget(state);
+}
+macro_rules! step_fault_instance {
+    ($name:ident, $fault:expr) => {
+        step_harness! { 10,
+        fn $name() {
+            step_fault_case($fault);
+        }
+        }
+    };
+}
+// @verif prop=C19,C01 tier=probe timeout=900 bounds=one-write_buffer-call-with-the-real-rotation-half,state-symbolic-as-above,record-1..8-bytes,rename-step-fails(EACCES)
+// BUDGET GATE (all four fault instances): no result in 360 s / 12 GB - with a live Err path the FlexiLoggerError that write_buffer hands to eprint_err is dropped, and CBMC unwinds the mutually recursive drop glue (FlexiLoggerError <-> io::Error <-> Box<dyn Error>) to the bound; the fault points stay decided on the two halves (c19_rotate_*, c01_write_buffer_glue). Not registered.
+// A write whose rotation fails at the rename: reported once, the record is written to the old writer (still mounted), index and size count go on unchanged - nothing is lost, the rotation is retried by the next write.
+step_fault_instance!(c19_step_rename_fails, 1);
+// @verif prop=C19,C01 tier=probe timeout=900 bounds=same,open-fails-after-the-rename(EACCES)
+// ... fails at the open after the rename: reported once, the record goes to the old writer (now the renamed file).
+step_fault_instance!(c19_step_open_fails, 2);
+// @verif prop=C19,C07 tier=probe timeout=900 bounds=same,cleanup-fails(EIO)
+// ... fails in the cleanup: reported once, the rotation is complete and the record goes to the new file.
+step_fault_instance!(c19_step_cleanup_fails, 3);
+// @verif prop=C19,C08 tier=probe timeout=900 bounds=same,the-write-itself-fails(ENOSPC)-after-a-possible-rotation
+// The write itself fails (after a possible, successful rotation): Err goes to the caller, the size count does not include the lost record, the state stays usable.
+step_fault_instance!(c19_step_write_fails, 4);
+
 fn write_buffer_glue_case(wfault: bool) {
     vs::link_all();
     vs::cell_set(0, if wfault { 4 } else { 0 });
@@ -632,6 +728,7 @@ fn c19_write_buffer_write_fails() {
 #[kani::proof]
 #[kani::unwind(8)]
 #[kani::stub(verif_support::reexp::catch_unwind, verif_support::stub_cu)]
+#[kani::stub(crate::parameters::file_spec::TimestampCfg::get_timestamp, crate::parameters::file_spec::verif_harness::cut_get_timestamp)]
 #[kani::stub(chrono::Local::now, stub_now)]
 fn c07_writes_direct_flag() {
     vs::link_all();
@@ -752,6 +849,7 @@ macro_rules! sink_instance {
         #[kani::proof]
         #[kani::unwind(13)]
         #[kani::stub(verif_support::reexp::catch_unwind, verif_support::stub_cu)]
+        #[kani::stub(crate::parameters::file_spec::TimestampCfg::get_timestamp, crate::parameters::file_spec::verif_harness::cut_get_timestamp)]
         #[kani::stub(chrono::Local::now, stub_now)]
         #[kani::stub(State::initialize, cut_initialize)]
         #[kani::stub(State::mount_next_linewriter_if_necessary, rec_mount_next_quiet)]
@@ -780,6 +878,176 @@ sink_instance!(c04_buffered_shutdown, Some(4), 1);
 // @verif prop=C04,C15,C11 tier=quick timeout=900 bounds=direct-writer(no-buffer),2-records-of-symbolic-length<=5,shutdown()
 // Direct mode: every record is in the sink as soon as write_buffer returned; the delivered byte sequence equals the reference stream - the same reference the buffered instances are decided against, so the contents do not depend on the write mode.
 sink_instance!(c04_direct_shutdown, None, 1);
+
+// ------------------------------------------------------------------------------------------------
+// Integrated history of two writes over the real BufWriter with the real rotation half (session 3):
+// C01 / C04 / C15 for the buffered synchronous modes *through rotations*: each sink stands for one
+// file (id 0 = the file open at the start, 1, 2 = the files opened by rotations); a rotation drops
+// the old BufWriter (which must flush what it still holds into *its* file) and mounts a new one.
+struct SinkW {
+    id: u32,
+}
+impl Write for SinkW {
+    fn write(&mut self, b: &[u8]) -> std::io::Result<usize> {
+        let mut i = 0;
+        while i < b.len() {
+            vs::bl_push(self.id, b[i]);
+            i += 1;
+        }
+        Ok(b.len())
+    }
+    fn flush(&mut self) -> std::io::Result<()> {
+        vs::cell_inc(7);
+        Ok(())
+    }
+}
+fn stub_open_bufsink(_c: &FileLogWriterConfig, _o_infix: Option<&str>) -> Result<(Box<dyn Write + Send>, PathBuf), std::io::Error> {
+    vs::ev_push(2);
+    let id = vs::cell_inc(1) as u32;
+    let cap = vs::cell_get(2) as usize;
+    let w: Box<dyn Write + Send> = if cap == 0 { Box::new(SinkW { id }) } else { Box::new(BufWriter::with_capacity(cap, SinkW { id })) };
+    Ok((w, PathBuf::from("n")))
+}
+fn stub_open_sink(_c: &FileLogWriterConfig, _o_infix: Option<&str>) -> Result<(Box<dyn Write + Send>, PathBuf), std::io::Error> {
+    vs::ev_push(2);
+    let id = vs::cell_inc(1) as u32;
+    Ok((Box::new(SinkW { id }), PathBuf::from("n")))
+}
+// the write mode is a type parameter so that the direct instances do not link BufWriter at all
+trait MkW {
+    const CAP: usize;
+    fn mk0() -> Box<dyn Write + Send>;
+}
+struct DirectMode;
+impl MkW for DirectMode {
+    const CAP: usize = 0;
+    fn mk0() -> Box<dyn Write + Send> {
+        Box::new(SinkW { id: 0 })
+    }
+}
+struct BufferedMode;
+impl MkW for BufferedMode {
+    const CAP: usize = 4;
+    fn mk0() -> Box<dyn Write + Send> {
+        Box::new(BufWriter::with_capacity(4, SinkW { id: 0 }))
+    }
+}
+fn history_case<M: MkW>(first_rotates: bool) {
+    let cap = M::CAP;
+    vs::link_all();
+    vs::cell_set(0, 0);
+    vs::cell_set(1, 0);
+    vs::cell_set(2, cap as u64);
+    let idx: u32 = kani::any();
+    kani::assume(idx < 1000);
+    let max_size: u64 = kani::any();
+    let current_size: u64 = kani::any();
+    kani::assume(current_size < (1u64 << 62));
+    // the rotation decision of the *first* write is fixed per instance (both instances together cover
+    // every start state): with it symbolic the shape of the state after the first step (which writer
+    // is mounted) is merged and CBMC ran out of memory (12 GB) in the second step
+    kani::assume((current_size > max_size) == first_rotates);
+    let cfg = mk_config(FileSpec::default().directory("d").basename("b").suffix("l").suppress_timestamp(), false, WriteMode::Direct);
+    // (the buffered variant is only linked into the buffered instances: a reachable BufWriter vtable
+    // makes CBMC explore its drop glue for every `Box<dyn Write>` that is released)
+    let w0: Box<dyn Write + Send> = M::mk0();
+    let mut state = active_state(
+        cfg,
+        Inner::Active(
+            Some(RotationState {
+                naming_state: NamingState::NumbersRCurrent(idx),
+                roll_state: RollState::Size { max_size, current_size },
+                cleanup: Cleanup::Never,
+                o_cleanup_thread_handle: None,
+            }),
+            w0,
+            PathBuf::from("c"),
+        ),
+    );
+    let l1: usize = kani::any();
+    let l2: usize = kani::any();
+    kani::assume(l1 >= 1 && l1 <= 5 && l2 >= 1 && l2 <= 5);
+    let r1 = [b'a'; 5];
+    let r2 = [b'b'; 5];
+    std::mem::forget(state.write_buffer(&r1[..l1]));
+    std::mem::forget(state.write_buffer(&r2[..l2]));
+    let f = state.flush();
+    let fok = f.is_ok();
+    std::mem::forget(f);
+    assert!(fok);
+    // reference, from the property text: a record goes to a fresh file iff the current one already
+    // holds more than N bytes when the record arrives
+    let mut w1 = 0u16;
+    let mut cur = current_size;
+    if cur > max_size {
+        w1 += 1;
+        cur = 0;
+    }
+    cur += l1 as u64;
+    let mut w2 = w1;
+    if cur > max_size {
+        w2 += 1;
+        cur = 0;
+    }
+    cur += l2 as u64;
+    // after flush(): every byte of both records is in its file, once, in order; the files read
+    // oldest to newest give the stream
+    assert!(vs::bl_len() == l1 + l2);
+    let mut i = 0;
+    while i < l1 + l2 {
+        let want = if i < l1 { (w1 << 8) | b'a' as u16 } else { (w2 << 8) | b'b' as u16 };
+        assert!(vs::bl_get(i) == want);
+        i += 1;
+    }
+    if let Inner::Active(Some(rs), _, _) = &state.inner {
+        match (&rs.naming_state, &rs.roll_state) {
+            (NamingState::NumbersRCurrent(i2), RollState::Size { max_size: m2, current_size: c2 }) => {
+                assert!(*m2 == max_size && *i2 == idx + w2 as u32 && *c2 == cur);
+            }
+            _ => unreachable!(),
+        }
+    } else {
+        unreachable!();
+    }
+    kani::cover!(w2 == w1 + 1, "the second write rotated");
+    kani::cover!(w2 == w1 && l1 < 4, "the second write did not rotate; the first record was still buffered (buffered instances)");
+    std::mem::forget(state);
+}
+macro_rules! history_instance {
+    ($name:ident, $mode:ident, $first:expr, $open:ident) => {
+        #[kani::proof]
+        #[kani::unwind(13)]
+        #[kani::stub(verif_support::reexp::catch_unwind, verif_support::stub_cu)]
+        #[kani::stub(chrono::Local::now, stub_now)]
+        #[kani::stub(get_creation_timestamp, stub_creation_ts)]
+        #[kani::stub(numbers::index_for_rcurrent, stub_index_for_rcurrent)]
+        #[kani::stub(numbers::number_infix, cut_number_infix)]
+        #[kani::stub(open_log_file, $open)]
+        #[kani::stub(list_and_cleanup::remove_or_compress_too_old_logfiles, stub_cleanup)]
+        #[kani::stub(timestamps::creation_timestamp_of_currentfile, cut_ts_current)]
+        #[kani::stub(timestamps::infix_from_timestamp, cut_infix_from_ts)]
+        #[kani::stub(crate::util::eprint_err, stub_eprint_err_ev)]
+        #[kani::stub(State::initialize, cut_initialize)]
+        #[kani::stub(crate::parameters::file_spec::TimestampCfg::get_timestamp, crate::parameters::file_spec::verif_harness::cut_get_timestamp)]
+        #[kani::stub(list_and_cleanup::CleanupThreadHandle::shutdown, cut_cleanup_thread_shutdown)]
+        fn $name() {
+            history_case::<$mode>($first);
+        }
+    };
+}
+// @verif prop=C01,C04,C15,C08 tier=probe timeout=900 bounds=2-writes(1..5-bytes-each)-then-flush,real-BufWriter(capacity-4)-per-file,real-rotation-half(leaves-by-contract),NumbersRCurrent(idx<1000),Size{max,cur}(cur<2^62)-symbolic,first-write-does-not-rotate
+// BUDGET GATE (both buffered instances): out of memory (12 GB) after 880 s - a BufWriter that is *dropped* inside CBMC (the rotation releases the old writer) drops the io::Result of its final flush_buf, i.e. the recursive error drop glue; not registered. What is decided instead: c04_buffered_flush (real BufWriter, no rotation), c01_step_write_rotate_flush (rotation + flush, recording writers), c01_history_direct_* below.
+// Buffered mode through rotations: two records on an arbitrary Active state, each rotating iff its file already exceeds N; after flush() the files (sinks) read oldest to newest hold exactly the two records, each once, in order - a BufWriter that is rotated away delivers what it still buffered into its own file. (start states in which the first write does not rotate)
+history_instance!(c01_history_buffered_a, BufferedMode, false, stub_open_bufsink);
+// @verif prop=C01,C04,C15,C08 tier=probe timeout=900 bounds=same,start-states-in-which-the-first-write-rotates
+// ... start states in which the first write rotates.
+history_instance!(c01_history_buffered_b, BufferedMode, true, stub_open_bufsink);
+// @verif prop=C01,C15,C08 tier=quick timeout=900 bounds=same-history,direct-writers(no-buffer),first-write-does-not-rotate
+// Direct mode, same history, same reference stream: the contents do not depend on the write mode.
+history_instance!(c01_history_direct_a, DirectMode, false, stub_open_sink);
+// @verif prop=C01,C15,C08 tier=quick timeout=900 bounds=same,first-write-rotates
+// ... first write rotates.
+history_instance!(c01_history_direct_b, DirectMode, true, stub_open_sink);
 
 // ================================================================================================
 // initialize_with_rotation (start of a run, number namings): which file is opened, which index is
@@ -877,6 +1145,7 @@ macro_rules! init_instance {
         #[kani::proof]
         #[kani::unwind(10)]
         #[kani::stub(verif_support::reexp::catch_unwind, verif_support::stub_cu)]
+        #[kani::stub(crate::parameters::file_spec::TimestampCfg::get_timestamp, crate::parameters::file_spec::verif_harness::cut_get_timestamp)]
         #[kani::stub(chrono::Local::now, stub_now)]
         #[kani::stub(get_creation_timestamp, stub_creation_ts)]
         #[kani::stub(numbers::get_highest_index, stub_highest_init)]
@@ -964,6 +1233,7 @@ macro_rules! naming_step_harness {
         #[kani::proof]
         #[kani::unwind($u)]
         #[kani::stub(verif_support::reexp::catch_unwind, verif_support::stub_cu)]
+        #[kani::stub(crate::parameters::file_spec::TimestampCfg::get_timestamp, crate::parameters::file_spec::verif_harness::cut_get_timestamp)]
         #[kani::stub(chrono::Local::now, stub_now)]
         #[kani::stub(get_creation_timestamp, stub_creation_ts)]
         #[kani::stub(numbers::index_for_rcurrent, stub_index_for_rcurrent)]
@@ -1179,6 +1449,7 @@ fn stub_oo_open<P: AsRef<Path>>(_o: &OpenOptions, path: P) -> std::io::Result<Fi
 #[kani::proof]
 #[kani::unwind(10)]
 #[kani::stub(verif_support::reexp::catch_unwind, verif_support::stub_cu)]
+#[kani::stub(crate::parameters::file_spec::TimestampCfg::get_timestamp, crate::parameters::file_spec::verif_harness::cut_get_timestamp)]
 #[kani::stub(chrono::Local::now, stub_now)]
 #[kani::stub(State::initialize, cut_initialize)]
 #[kani::stub(State::mount_next_linewriter_if_necessary, rec_mount_next_quiet)]
@@ -1247,6 +1518,7 @@ macro_rules! shutdown_instance {
         #[kani::proof]
         #[kani::unwind(10)]
         #[kani::stub(verif_support::reexp::catch_unwind, verif_support::stub_cu)]
+        #[kani::stub(crate::parameters::file_spec::TimestampCfg::get_timestamp, crate::parameters::file_spec::verif_harness::cut_get_timestamp)]
         #[kani::stub(chrono::Local::now, stub_now)]
         #[kani::stub(State::initialize, cut_initialize)]
         #[kani::stub(State::mount_next_linewriter_if_necessary, rec_mount_next_quiet)]
@@ -1331,6 +1603,7 @@ fn init_retry_case(with_retry: bool) {
 #[kani::proof]
 #[kani::unwind(6)]
 #[kani::stub(verif_support::reexp::catch_unwind, verif_support::stub_cu)]
+#[kani::stub(crate::parameters::file_spec::TimestampCfg::get_timestamp, crate::parameters::file_spec::verif_harness::cut_get_timestamp)]
 #[kani::stub(chrono::Local::now, stub_now)]
 #[kani::stub(State::initialize_with_rotation, stub_init_with_rotation)]
 #[kani::stub(open_log_file, cut_open_log_file)]
@@ -1342,6 +1615,7 @@ fn c19_initialize_failure_keeps_rotation() {
 #[kani::proof]
 #[kani::unwind(6)]
 #[kani::stub(verif_support::reexp::catch_unwind, verif_support::stub_cu)]
+#[kani::stub(crate::parameters::file_spec::TimestampCfg::get_timestamp, crate::parameters::file_spec::verif_harness::cut_get_timestamp)]
 #[kani::stub(chrono::Local::now, stub_now)]
 #[kani::stub(State::initialize_with_rotation, stub_init_with_rotation)]
 #[kani::stub(open_log_file, cut_open_log_file)]
@@ -1446,6 +1720,7 @@ macro_rules! open_harness {
         #[kani::proof]
         #[kani::unwind($u)]
         #[kani::stub(verif_support::reexp::catch_unwind, verif_support::stub_cu)]
+        #[kani::stub(crate::parameters::file_spec::TimestampCfg::get_timestamp, crate::parameters::file_spec::verif_harness::cut_get_timestamp)]
         #[kani::stub(chrono::Local::now, stub_now)]
         #[kani::stub(crate::util::eprint_err, stub_eprint_err_ev)]
         #[kani::stub(std::fs::OpenOptions::write, oo_write)]
@@ -1613,6 +1888,7 @@ fn oo_open_reopen<P: AsRef<Path>>(_o: &OpenOptions, path: P) -> std::io::Result<
 #[kani::proof]
 #[kani::unwind(10)]
 #[kani::stub(verif_support::reexp::catch_unwind, verif_support::stub_cu)]
+#[kani::stub(crate::parameters::file_spec::TimestampCfg::get_timestamp, crate::parameters::file_spec::verif_harness::cut_get_timestamp)]
 #[kani::stub(chrono::Local::now, stub_now)]
 #[kani::stub(crate::util::eprint_err, stub_eprint_err_ev)]
 #[kani::stub(std::fs::OpenOptions::create, oo_create)]
